@@ -85,7 +85,7 @@ impl<T: Iterator<Item = Token>> TryFrom<&mut Peekable<T>>
         let start = iter.next_or_err()?;
         let start = start
             .text()
-            .filter(|txt| !txt.eq_ignore_ascii_case("MIN"))
+            .filter(|txt| !txt.eq(&"MIN"))
             .map(|t| match t.parse::<usize>() {
                 Ok(lit) => LitOrRef::Lit(lit),
                 Err(_) => LitOrRef::Ref(t.to_string()),
@@ -112,7 +112,7 @@ impl<T: Iterator<Item = Token>> TryFrom<&mut Peekable<T>>
             let end = iter.next_or_err()?;
             let end = end
                 .text()
-                .filter(|txt| !txt.eq_ignore_ascii_case("MAX"))
+                .filter(|txt| !txt.eq(&"MAX"))
                 .map(|t| match t.parse::<usize>() {
                     Ok(lit) => LitOrRef::Lit(lit),
                     Err(_) => LitOrRef::Ref(t.to_string()),
